@@ -35,13 +35,16 @@ WORKERS = [2, 3, 8, 1]
 
 @st.composite
 def cases(draw, thorough):
-    n = draw(st.integers(5, 40 if thorough else 12))
+    n = draw(st.integers(5, 40 if thorough else 9))
     files = [draw(lintgen.lint_file(i)) for i in range(n)]
     ns = draw(st.integers(1, 3 if thorough else 2))
     schedules = []
+    levels = [50, 20, 5, 0]
     for _ in range(ns):
+        # the delay of a file follows its rank in a generated permutation (identity: first submitted = slowest)
+        perm = draw(st.permutations(list(range(n))))
         schedules.append({'workers': draw(st.sampled_from(WORKERS)),
-                          'delays': [draw(st.sampled_from([0, 0, 5, 20, 50])) for _ in range(n)]})
+                          'delays': [levels[perm[i] * len(levels) // n] for i in range(n)]})
     return {'files': files, 'overlap': draw(st.integers(0, 4)) == 0, 'schedules': schedules}
 
 
@@ -59,10 +62,8 @@ def _rules():
 
 
 def _cleanup_children():
+    """no process may outlive a case: the Manager that loki starts is only shut down by its finalizer"""
     import multiprocessing
-    if not multiprocessing.active_children():
-        return 0
-    gc.collect()     # lint_files_glob never shuts its Manager down; its finalizer does
     left = multiprocessing.active_children()
     for p in left:
         p.terminate()
@@ -87,20 +88,37 @@ def run_lint(src, outdir, case, workers, plan):
         res['count'] = lint_files(_rules(), cfg, handlers=[CollectHandler(os.path.join(outdir, 'collect.json'), basedir=src)])
     except Exception as e:  # noqa: data for the oracle
         res['exc'] = e
-    gc.collect()    # closes the lazily opened report files
+    def slurp():
+        out = {}
+        for k in ('junit.xml', 'violations.yml'):
+            p = os.path.join(outdir, k)
+            out[k] = open(p).read() if os.path.exists(p) else None
+        return out
+
+    at_return = slurp()      # what a caller sees when lint_files returns
+    final = at_return
+    if res['exc'] is None and (not at_return['junit.xml'] or not at_return['violations.yml']):
+        gc.collect()         # the lazily opened report files are only closed by their finalizer
+        final = slurp()
     res['leftover'] = _cleanup_children()
     res['junit'] = res['yaml'] = res['collect'] = None
+    res['incomplete'] = []
     if res['exc'] is None:
-        res['junit'] = parse_junit(os.path.join(outdir, 'junit.xml'), src)
-        res['yaml'] = parse_yaml(os.path.join(outdir, 'violations.yml'))
         res['collect'] = parse_collect(os.path.join(outdir, 'collect.json'))
+        has_violations = any(c for _, c in res['collect'])
+        for k, obs, parse in (('junit.xml', 'junit', lambda t: parse_junit(t, src)), ('violations.yml', 'yaml', parse_yaml)):
+            if at_return[k] != final[k] or not final[k] and (obs == 'junit' or has_violations):
+                res['incomplete'].append(f'{k}: {len(at_return[k] or "")} bytes when lint_files returned, '
+                                         f'{len(final[k] or "")} bytes after garbage collection')
+            if final[k] or (obs == 'yaml' and not has_violations):
+                res[obs] = parse(final[k] or '')
     return res
 
 
-def parse_junit(path, src):
+def parse_junit(text, src):
     """-> list of (relative file, Counter((rule, message)))  in document order"""
     out = []
-    root = ET.parse(path).getroot()
+    root = ET.fromstring(text)
     for ts in root.iter('testsuite'):
         name = os.path.relpath(ts.attrib['name'], src)
         c = Counter()
@@ -111,13 +129,9 @@ def parse_junit(path, src):
     return out
 
 
-def parse_yaml(path):
+def parse_yaml(text):
     """-> list of (relative file, Counter((rule, line hash)))  in document order; duplicates of a key stay visible"""
     import yaml
-    if not os.path.exists(path):
-        return []
-    with open(path) as f:
-        text = f.read()
     out = []
     # every file report is its own block 'name:\n  rules: ...' separated by blank lines
     for block in re.split(r'\n(?=\S)', text):
@@ -205,7 +219,11 @@ def _check(case, ctx, root, src):
             why = ':overlapping-include-patterns' if tw and res['count'] == expect + tw else ''
             fail(f'C42:checked-count:{mode}{why}',
                  f'lint_files returned {res["count"]}; {len(selected)} files selected, {len(errfiles)} of them with an error report')
+        for what in res['incomplete']:
+            fail(f'C42:report-file-incomplete-when-lint_files-returns:{mode}', what)
         for obs in ('junit', 'collect'):
+            if res[obs] is None:
+                continue
             names = Counter(n for n, _ in res[obs])
             for r in selected:
                 if names[r] == 0:
@@ -216,7 +234,7 @@ def _check(case, ctx, root, src):
             for n in names:
                 if n not in selected:
                     fail(f'C42:unselected-file-reported:{obs}:{mode}', f'{n} was not selected by the patterns')
-        ynames = Counter(n for n, _ in res['yaml'])
+        ynames = Counter(n for n, _ in res['yaml'] or [])
         for n, k in ynames.items():
             if k > 1:
                 why = ':overlapping-include-patterns' if n in twice and k == 2 else ''
@@ -267,6 +285,8 @@ def _check(case, ctx, root, src):
         if got_order != [n for n, _ in ref['collect']]:
             ctx.count('observed:reports-arrived-out-of-submission-order')
         for obs in ('junit', 'yaml', 'collect'):
+            if ref[obs] is None or res[obs] is None:
+                continue      # content lost; reported as incomplete report file
             a, b = per_file(ref[obs]), per_file(res[obs])
             for n in sorted(set(a) | set(b)):
                 if n in twice:
@@ -285,7 +305,7 @@ def _check(case, ctx, root, src):
 
 def run_shard(ctx):
     n = ctx.scale(40, 500)
-    ctx.given(cases(ctx.thorough), check_case, n, label='filesets')
+    ctx.given(cases(ctx.thorough), check_case, n, label='filesets', shrink=not os.environ.get('LOKIVERIF_NOSHRINK'))
     ctx.note('OS-level interleavings are not enumerated; the harness owns the duration of each lint task only; '
              'files that fail to parse cannot be delayed (the DelayRule never runs on them)')
     ctx.note('class observed:reports-arrived-out-of-submission-order is a timing-dependent observation, not part of the verdict')
